@@ -119,6 +119,8 @@ def run_impl(text, ops):
             del las.curves[op[1]]
         elif op[0] == "EB":
             las = build_scratch(op[1])
+            cur = ""
+            extra_tokens |= {"nan", "2.0", "-9999.25"}      # the numeric default items of LASFile()
             for c in op[1]:
                 extra_tokens |= set(c[2])
         elif op[0] == "ES":
